@@ -73,6 +73,17 @@ class Ctx:
         self.inconclusives = []
         self.requirements = {}  # counter -> minimum (judged after merge)
         self.notes = {}
+        self._out = None
+        self._last_dump = time.time()
+
+    def autodump(self, path):
+        """Partial results survive a shard that is killed by its watchdog."""
+        self._out = path
+
+    def _maybe_dump(self):
+        if self._out and time.time() - self._last_dump > 4:
+            self._last_dump = time.time()
+            self.dump(self._out, partial=True)
 
     # -- budget -----------------------------------------------------------
     def pick(self, quick, thorough):
@@ -95,6 +106,7 @@ class Ctx:
             self.distinct.add(_h(fingerprint))
         if sample is not None and len(self.samples) < self.MAX_SAMPLES:
             self.samples.append(jsonable(sample))
+        self._maybe_dump()
 
     def count(self, name, n=1):
         self.counters[name] = self.counters.get(name, 0) + n
@@ -113,6 +125,7 @@ class Ctx:
             )
         else:
             v["count"] += 1
+        self._maybe_dump()
 
     def inconclusive(self, reason):
         if len(self.inconclusives) < 50:
@@ -128,9 +141,10 @@ class Ctx:
             return None
 
     # -- shard output -----------------------------------------------------
-    def dump(self, path):
+    def dump(self, path, partial=False):
         data = dict(
             shard=self.shard,
+            partial=partial,
             evaluations=self.evaluations,
             distinct=sorted(self.distinct),
             samples=self.samples,
